@@ -93,6 +93,7 @@ type Frame struct {
 	entry     *State // snapshot at entry (for old())
 	retStates []*State
 	retVals   [][]Val
+	retPos    []token.Pos
 	panics    []*State
 	recovers  bool
 	top       bool
@@ -143,6 +144,7 @@ type Exec struct {
 	calledNamed  map[string]bool       // contract keys mentioned in called("...") clauses of this unit
 	cellTypes    map[string]types.Type // shared cells (escape.go): key -> type
 	succNamed    map[string]bool       // keys mentioned in succeeded("...") clauses of this unit
+	callsNamed   map[string]bool       // keys mentioned in calls("...") clauses of this unit
 }
 
 type privBox struct{ heap, ref string }
@@ -990,6 +992,7 @@ func (e *Exec) execBlock(fr *Frame, b *ssa.BasicBlock, st *State, edgeStates map
 			}
 			fr.retStates = append(fr.retStates, st)
 			fr.retVals = append(fr.retVals, vals)
+			fr.retPos = append(fr.retPos, x.Pos())
 			return
 		case *ssa.Panic:
 			if e.protected(fr, st) {
@@ -1255,8 +1258,11 @@ func (e *Exec) enterLoop(fr *Frame, st *State, hdr *ssa.BasicBlock, ord int, bod
 			e.hhavoc(ns, m)
 		}
 	}
-	// the acquisition snapshot is part of the state: havoc it the same way (invariants re-link it)
-	if st.acq != nil {
+	// the acquisition snapshot is part of the state: if the loop body (re)acquires a lock itself it is
+	// havocked the same way (invariants re-link it); otherwise it stays what it was before the loop
+	if st.acq != nil && !e.bodyAcquires(fr.fn, body, 0) {
+		ns.acq = st.acq
+	} else if st.acq != nil {
 		na := st.acq.clone()
 		na.acq = nil
 		if all {
